@@ -348,7 +348,7 @@ class C16(Campaign):
         ncol = len(header.split())
         lines = text.split("\n")
         body = lines[:-1] if text.endswith("\n") else lines
-        bad = [l for l in body[1:] if len(l.split()) != ncol]
+        bad = [l for l in body[1:] if len(l.split()) != ncol or l == header]
         if body and body[0] != header or bad or not text.endswith("\n"):
             self._v("log_line_incomplete_after_interrupted_call", f"file=log|driver={sc['driver']}",
                     f"a logged quantity raised during call #{fail_at}; afterwards the log holds "
